@@ -19,6 +19,15 @@ and read -> modify -> write -> read must give the modified state.
 Size boundaries (round 4, seeded C03-7): stream `size-boundary` - a few large-but-cheap inputs whose sections have row counts just
 below / at / above powers of two (65536 and 131072 in particular; 2^12 .. 2^15 for the smaller sections), built vectorised from
 recorded generator parameters and judged by the same oracle (oracle only).
+Node-group definitions (round 5, seeded C03-10, class P / K): the LAYOUT of the !NGROUP blocks of the mesh file is an input dimension -
+ids per line (one per line, all on one line, k per line), a group split over 2-3 blocks that interleave with the blocks of other
+groups, separators / padding, RAGGED blocks (k per line with a shorter last line) - as are many-to-one relations between names and
+node sets (two names for one node set, a member listed twice, names that extend each other, 1-node and all-node groups).  The
+explicit listing is built from the generator's member lists, never from what femio read.  Tie: the model reads the node groups
+from the mesh TEXT (`Femio.Fistr.readCntFiles`, driver `c03.readfiles`), NgCfg.rect detected per run (Cfg pattern).
+Caller arrays (classes F / N): the table handed to FEMAttribute is float32 / float16 / Fortran-ordered / a non-contiguous view /
+read-only, or an integer / unsigned / bool array of integral values (np.zeros((n, 3), dtype=int)); the truth stays the snapshot of
+what the object holds at write().
 """
 import shutil
 
@@ -35,7 +44,9 @@ THEOREMS = ['C03_boundary_roundtrip', 'C03_spring_roundtrip', 'C03_cload_roundtr
             'C03_boundary_dof_gt3_lost', 'C03_line_roundtrip',
             'C03_file_roundtrip', 'C03_roundtrip', 'C03_cflux_both_merged',
             'C03_history_fresh_any_cfg', 'C03_history_roundtrip', 'C03_history_property', 'C03_history_fresh',
-            'C03_history_poke_state', 'C03_history_counterexample_frame_writer']
+            'C03_history_poke_state', 'C03_history_counterexample_frame_writer',
+            'C03_ngroup_layout', 'C03_ngroup_layout_independent', 'C03_ngroup_first_id_counterexample',
+            'C03_ngroup_ragged_counterexample_upstream']
 PARTIAL = [
     'C03_file_roundtrip / C03_roundtrip (whole control file: readCnt ng (writeCnt c) = expectedCnt c, prescription sets '
     'per kind + solution type, every node-group map) are over the model of write_cnt at default settings (CntIn: '
@@ -49,6 +60,11 @@ PARTIAL = [
     'driver command c03.hist on every decimal history inside that alphabet (public state compared = correspondence; what the '
     'pandas frames hold is recorded in the distribution only, it is not an observable of this property); '
     'update(allow_overwrite=True) (pandas combine_first) and column scaling are exercised by the oracle only',
+    'C03_ngroup_layout / C03_ngroup_layout_independent (every chunking of a member list into non-empty !NGROUP lines denotes the member list; two '
+    'layouts of one list are the same definition) are about ONE block rendered with `%d` joined by commas (renderNatRow); blanks / tabs / padding '
+    'around the ids and the merge of several blocks of one name are covered by the correspondence c03.readfiles (model reads the groups from the '
+    'mesh text) and by the oracle, not by a theorem; for the upstream reader (NgCfg.upstream, rect = true) the theorem needs lines of equal length - '
+    'C03_ngroup_ragged_counterexample_upstream is the open finding; C03_ngroup_first_id_counterexample is the structure of seeded change C03-10',
 ]
 RULE = ('seeded generator: a combinatorial mesh as in C01 (arbitrary ids / order / types); solution type STATIC or HEAT; '
         'for each of boundary / spring / cload an optional table over a random node subset (distinct ids, arbitrary row '
@@ -66,8 +82,17 @@ RULE = ('seeded generator: a combinatorial mesh as in C01 (arbitrary ids / order
         'fed with that state; the conditions the object holds must be the same after write(). Extras on half of the cases: '
         'second write of the same object (same bytes; or 1-2 more modifications between the two writes), an independently constructed fresh object with the snapshot content '
         '(same bytes), read -> modify (0-3 ops) -> write -> read starting from the written file or from the file that '
-        'addresses node groups. Node-group stream: 1-3 groups (plus ALL) over arbitrary node subsets (unreferenced nodes '
-        'included) used in place of explicit ids in a random subset of the rows. Stream `size-boundary` (round 4): per quick run two '
+        'addresses node groups. Node-group stream: 1-3 groups (plus ALL) over arbitrary node subsets of 1-12 nodes / one node / every node '
+        '(unreferenced nodes included), 30 % a second name for the same node set, 30 % a name that extends another name (G / G1 / G10, ALL_2), '
+        '10 % a member listed twice, used in place of explicit ids in a random subset of the rows (by-name file vs explicit listing built from the '
+        'generator member lists). LAYOUT of every group definition in the mesh text: classes one-per-line / one-line / k-per-line (k >= 2 divides the '
+        'block) / split (2-3 blocks, each in one of the former layouts) dealt in turn over the groups of a case, the blocks of different groups '
+        'interleaved, separators , | ,_ | ,__ | ,TAB | _,_ , right-aligned fields of width 6 / 8 / 10, leading / trailing blank, header with / without blank; '
+        '20 % of the cases turn one group of >= 3 members into a RAGGED definition (lines of different lengths: k per line + shorter last line, or '
+        'arbitrary line lengths) - inside the quantifier, own signature group-layout:ragged-block:* (open finding on the unchanged tree). Corpus case '
+        'ngroup-several-ids-per-line. Caller arrays: per kind 10 % float32 / float16 / Fortran order / non-contiguous view / read-only; 8 % of the cases '
+        'one kind as an integer-valued table in int64 / int32 / int16 / uint8 / bool (40 % all zeros). Labelled stream outside:ngroup-format:* (trailing '
+        'delimiter, lower-case keyword, blanks around =): recorded, never judged. Stream `size-boundary` (round 4): per quick run two '
         'large-but-cheap inputs built vectorised from recorded generator parameters (hex brick / plate / column of 4 000 - 70 000 nodes, '
         'ids ascending / shuffled / sparse / ~2e9; conditions over random node subsets in arbitrary row order whose NaN pattern holds '
         'EXACTLY the requested number of prescriptions): one table kind just above 65536 rows, one scalar kind above 65536 and one '
@@ -83,6 +108,12 @@ ASSUMPTIONS = [
     'run in the labelled stream `outside:all-nan`; an edit history that ends there is refilled',
     'cflux and pure_cflux are not present at the same time (labelled stream `outside:cflux+pure_cflux`)',
     'ids < 2^53; node-group names match [A-Za-z]\\w* (the reader recognises a group row by its first letter)',
+    'a node-group definition = one or more `!NGROUP, NGRP=name` blocks (upper-case keyword, no blank around =) whose data lines hold one or more '
+    'comma-separated ids with optional blanks / tabs around them; lines of DIFFERENT lengths within one block are inside the quantifier (the unchanged '
+    'tree raises there: finding group-layout:ragged-block:read-raises:ValueError, findings/C03-ragged-ngroup.md); a delimiter at the end of a line, '
+    'lower-case keywords, `NGRP = name`, GENERATE are outside (stream `outside:ngroup-format:*`); two group names that differ only in case are not generated',
+    'caller arrays of dtype float32 / float16: the expected conditions are the values the array holds (snapshot), values that overflow to inf there are '
+    'outside (`outside:non-finite:*`); the Lean history model is not tied on cases with a non-default caller array (a poke stores a converted value or raises)',
     'settings other than solution_type: defaults, or frequency / write_visual / heat (oracle only); free-text settings '
     '(output_res, output_vis, step) are not generated',
     'the public state of a kind is (.ids, .data): after an in-place edit through .data the pandas frame of the attribute '
@@ -158,8 +189,49 @@ def gen_case(rnd, decimal=None):
         opts = {'frequency': rnd.randint(2, 50), 'write_visual': False,
                 'heat': [[rnd.choice([0.0, 0.5, 1.0]), float(rnd.randint(1, 100)), 0.0, 0.0, rnd.randint(1, 40), 1e-6]]}
         case['settings'] = {k: opts[k] for k in rnd.sample(sorted(opts), rnd.randint(1, 3))}
+    # dtype / memory layout of the array the caller hands in (classes F, N): the values are what the array holds
+    arr = {}
+    for k in list(case['tables']) + list(case['scalars']):
+        if rnd.random() < .1:
+            arr[k] = rnd.choice(FLOAT_ARRAY_STYLES)
+    if rnd.random() < .08:      # integer idiom: np.zeros((n, 3), dtype=int), integer loads / temperatures in an integer / bool array
+        k = rnd.choice(TABLES + ['fixtemp'])
+        dt = rnd.choice(INT_ARRAY_STYLES)
+        lo, hi = {'bool': (0, 1), 'uint8': (0, 255), 'int16': (-999, 999)}.get(dt, (-99999, 99999))
+        zero = rnd.random() < .4
+
+        def cell():
+            return ['s'] + list(X.sci_of_fraction(0 if zero else rnd.randint(lo, hi), DIG[k]))
+        sub = rnd.sample(ids, rnd.randint(1, min(len(ids), 6)))
+        if k in TABLES:
+            case['tables'][k] = [[i, [cell() for _ in range(3)]] for i in sub]
+        else:
+            case['scalars'][k] = [[i, cell()] for i in sub]
+        arr[k] = dt
+    if arr:
+        case['array'] = arr
     case['construct'] = {k: rnd.choice(['setitem', 'setitem', 'update_data']) for k in list(case['tables']) + list(case['scalars'])}
     return case
+
+
+FLOAT_ARRAY_STYLES = ['float32', 'float16', 'fortran', 'noncontig', 'readonly']
+INT_ARRAY_STYLES = ['int64', 'int32', 'int16', 'uint8', 'bool']
+LOSSY_ARRAY_STYLES = ['float32', 'float16']
+
+
+def as_array(data, style):
+    """the float64 C-ordered table in the dtype / memory layout `style`"""
+    if style is None:
+        return data
+    if style == 'fortran':
+        return np.asfortranarray(data)
+    if style == 'noncontig':
+        return np.repeat(data, 2, axis=1)[:, ::2]
+    if style == 'readonly':
+        data.setflags(write=False)
+        return data
+    with np.errstate(over='ignore'):
+        return data.astype(style)
 
 
 def rows_array(rows, p):
@@ -180,8 +252,10 @@ def build_fem(case, caller=None):
     order = case.get('order')
     if order:
         items.sort(key=lambda it: order.index(it[0]) if it[0] in order else len(order))
+    styles = case.get('array') or {}
     for k, ids, data in items:
         ids = np.array(ids, dtype=np.int64)
+        data = as_array(data, styles.get(k))
         if how.get(k) == 'update_data':     # idiom of tests/util/test_random_generator.py
             X.quiet(fd.constraints.update_data, ids, {k: data})
         else:
@@ -618,6 +692,9 @@ def hist_tie(ctx, rep, init, track, fd, base, pool, label):
     state (.ids, .data) of the real object (cfg = fromArray) and what its pandas frames hold (cfg = frame)"""
     if ctx.driver is None or not track:
         return
+    if label != 'rmw' and base.get('array'):     # integer / float32 / read-only arrays: a poke stores a converted value or raises
+        ctx.count('history-model:outside its alphabet (dtype / layout of the caller array)')
+        return
     if any(m is None for m in track) or not encodable(init):
         ctx.count('history-model:outside its alphabet (scale / update / non-decimal values)')
         return
@@ -717,15 +794,131 @@ def diff_read(a, b):
 
 # ------------------------------------------------------------------ node groups
 
-def group_texts(rnd, case, msh, cnt):
-    """(msh with !NGROUP blocks, cnt addressing groups by name, cnt listing the members, groups)"""
-    ids = [i for i, _ in case['mesh']['nodes']]
+# The mesh file defines a node group in one or more `!NGROUP, NGRP=name` blocks whose data lines carry ONE OR SEVERAL ids each
+# (pre-processors write 8 - 10 per line).  The LAYOUT of the definition - ids per line, blocks per group, separators, padding,
+# interleaving with the blocks of other groups - is an input dimension of "every node-group definition used in place of
+# explicit ids" (round 5, class P; seeded C03-10): it must not change what a condition on the group name denotes.
+#   layout classes of one group (all blocks RECTANGULAR = every line of a block has the same number of ids):
+#     one-per-line | one-line (all ids on one line) | k-per-line (k >= 2 divides the block size) | split (2-3 blocks, each of them
+#     laid out by one of the former, the blocks of different groups interleaved)
+#   ragged: at least one block whose lines have different lengths (k per line with a shorter last line, or arbitrary line lengths)
+# Many-to-one relations (class K): a second group with the SAME members (other order / layout), members listed twice, names that
+# are prefixes of each other (G1 / G10, ALL / ALL_2), groups of exactly one node and of every node.
+NG_SEPS = [', ', ',', ',  ', ',\t', ' , ']
+RECT_CLASSES = ['one-per-line', 'one-line', 'k-per-line', 'split']
+
+
+def _chunks(rnd, mem, cls):
+    """the lines (lists of ids) of ONE block holding `mem` in this order"""
+    m = len(mem)
+    if cls == 'one-per-line' or m == 1:
+        ks = [1] * m
+    elif cls == 'one-line':
+        ks = [m]
+    elif cls == 'k-per-line':
+        k = rnd.choice([k for k in range(2, m + 1) if m % k == 0])
+        ks = [k] * (m // k)
+    else:       # ragged: m >= 3, lines of different lengths
+        ks = []
+        if rnd.random() < .5:
+            while sum(ks) < m:
+                ks.append(min(rnd.randint(1, 6), m - sum(ks)))
+        if len(set(ks)) < 2:        # k per line with a shorter last line (k = m - 1 always qualifies)
+            k = rnd.choice([k for k in range(2, m) if m % k])
+            ks = [k] * (m // k) + [m % k]
+    out, j = [], 0
+    for k in ks:
+        out.append(mem[j:j + k])
+        j += k
+    assert j == m and all(out)
+    return out
+
+
+def _render_block(rnd, name, lines):
+    sep = rnd.choice(NG_SEPS)
+    width = rnd.choice([0, 0, 0, 6, 8, 10])
+    lead, trail = rnd.choice(['', '', ' ']), rnd.choice(['', '', ' '])
+    hdr = rnd.choice(['!NGROUP, NGRP=', '!NGROUP, NGRP=', '!NGROUP,NGRP='])
+    return [hdr + name] + [lead + sep.join(str(i).rjust(width) for i in ln) + trail for ln in lines]
+
+
+def gen_group_layout(rnd, name, mem, cls):
+    """blocks (each: list of text lines, header first) defining group `name` with members `mem` (order kept) in layout class `cls`;
+    returns (blocks, is_ragged, ids per line of every data line)"""
+    m = len(mem)
+    if cls == 'split' and m >= 2:
+        nb = rnd.randint(2, min(3, m))
+        cuts = sorted(rnd.sample(range(1, m), nb - 1))
+        parts = [mem[a:b] for a, b in zip([0] + cuts, cuts + [m])]
+        sub = [rnd.choice(['one-per-line', 'one-line', 'k-per-line']) for _ in parts]
+    elif cls == 'ragged' and m >= 3:
+        nb = rnd.choice([1, 1, 2]) if m >= 4 else 1
+        cut = rnd.randint(3, m - 1) if nb == 2 else m
+        parts = [mem[:cut]] + ([mem[cut:]] if nb == 2 else [])
+        sub = ['ragged'] + [rnd.choice(['one-per-line', 'one-line'])] * (nb - 1)
+    else:
+        parts, sub = [mem], [cls if cls != 'split' else 'one-line']
+    blocks, per_line = [], []
+    for part, c in zip(parts, sub):
+        if c == 'k-per-line' and not [k for k in range(2, len(part) + 1) if len(part) % k == 0]:
+            c = 'one-line'
+        if c == 'ragged' and len(part) < 3:
+            c = 'one-line'
+        lines = _chunks(rnd, part, c)
+        per_line += [len(ln) for ln in lines]
+        blocks.append((_render_block(rnd, name, lines), len({len(ln) for ln in lines}) > 1))
+    return [b for b, _ in blocks], any(r for _, r in blocks), per_line
+
+
+def gen_groups(rnd, ids):
+    """1-3 groups over arbitrary node subsets, then (class K) possibly an alias group with the same members and a group whose name
+    extends another name"""
     groups = {}
     for _ in range(rnd.randint(1, 3)):
-        groups[X.rand_name(rnd, groups, first_alpha=True)] = rnd.sample(ids, rnd.randint(1, min(5, len(ids))))
+        size = rnd.choice([1, len(ids)]) if rnd.random() < .15 else rnd.randint(1, min(12, len(ids)))
+        mem = rnd.sample(ids, size)
+        if rnd.random() < .1:       # a member listed twice
+            mem.insert(rnd.randrange(len(mem) + 1), rnd.choice(mem))
+        groups[X.rand_name(rnd, groups, first_alpha=True)] = mem
+    if rnd.random() < .3:           # two names, the same node set
+        src = rnd.choice(list(groups))
+        mem = list(groups[src])
+        rnd.shuffle(mem)
+        groups[X.rand_name(rnd, groups, first_alpha=True)] = mem
+    if rnd.random() < .3:           # a name that extends another name (PART1 / PART10, ALL / ALL_2)
+        base = rnd.choice(list(groups) + ['ALL'])
+        nm = base + rnd.choice(['0', '1', '_2', 'X', 'a', '10'])
+        if nm not in groups and nm.upper() != 'ALL':
+            groups[nm] = rnd.sample(ids, rnd.randint(1, min(12, len(ids))))
+    return groups
+
+
+def group_texts(rnd, case, msh, cnt, want_ragged=False):
+    """(msh with !NGROUP blocks, cnt addressing groups by name, cnt listing the members, groups, #group rows, layout record)"""
+    ids = [i for i, _ in case['mesh']['nodes']]
+    groups = gen_groups(rnd, ids)
+    names = list(groups)
+    # layout class per group: every rectangular class is dealt in turn (no luck needed: a case with >= 2 ids in some group has a
+    # line with several ids); `want_ragged` turns one group (of >= 3 members, if there is one) into a ragged definition
+    start = rnd.randrange(len(RECT_CLASSES))
+    classes = {nm: RECT_CLASSES[(start + j) % len(RECT_CLASSES)] if rnd.random() < .8 else rnd.choice(RECT_CLASSES[1:])
+               for j, nm in enumerate(names)}
+    if want_ragged:
+        big = [nm for nm in names if len(groups[nm]) >= 3]
+        if big:
+            classes[rnd.choice(big)] = 'ragged'
+    per_group, ragged, per_line = {}, False, []
+    for nm in names:
+        blocks, rg, pl = gen_group_layout(rnd, nm, groups[nm], classes[nm])
+        per_group[nm] = blocks
+        ragged = ragged or rg
+        per_line += pl
+    # the blocks of different groups interleave; the blocks of one group keep their order
+    order = [nm for nm in names for _ in per_group[nm]]
+    rnd.shuffle(order)
     ng = []
-    for nm, mem in groups.items():
-        ng += [f'!NGROUP, NGRP={nm}'] + [str(i) for i in mem]
+    for nm in order:
+        ng += per_group[nm].pop(0)
     msh2 = msh[:-1] + ng + msh[-1:]
     allg = dict(groups)
     allg['ALL'] = ids
@@ -743,7 +936,46 @@ def group_texts(rnd, case, msh, cnt):
         else:
             by_name.append(ln)
             explicit.append(ln)
-    return msh2, by_name, explicit, allg, n_rows
+    layout = {'classes': [classes[nm] for nm in names], 'ragged': ragged, 'max_ids_per_line': max(per_line),
+              'n_blocks': len(order), 'n_groups': len(names)}
+    return msh2, by_name, explicit, allg, n_rows, layout
+
+
+def model_readfiles(ctx, rect, msh, cnt):
+    rep = ctx.driver.ask(f'c03.readfiles {int(rect)} ' + C.enc_list(msh, C.esc) + ' ' + C.enc_list(cnt, C.esc))
+    t = C.Toks(rep)
+    if t.tok() != 'ok':
+        raise RuntimeError('driver: ' + rep[:200])
+    if t.nat() == 0:
+        return None
+    return _parse_cntread(t)
+
+
+def ngroup_tie(ctx, rep, got, msh, cnt, ragged):
+    """tie of `Femio.Fistr.readCntFiles` (mesh text -> node groups -> control-file rows): the node groups are the ones THE MODEL
+    reads from the !NGROUP blocks of the mesh text (not the generator's map).  NgCfg.rect (Cfg pattern): upstream `to_values`
+    raises on a block whose lines have different field counts (rect = true); a repaired reader accepts it (rect = false).  On
+    rectangular layouts both configurations must reproduce the reader; on ragged ones exactly the configuration the tree implements."""
+    res = {}
+    for rect in (1, 0):
+        mr = model_readfiles(ctx, rect, msh, cnt)
+        if (mr is None) != (got is None):
+            res[rect] = 'model raises, reader does not' if mr is None else 'reader raises, model does not'
+        else:
+            res[rect] = None if mr is None else diff_read(got, mr)
+    if not ragged:
+        for rect in (1, 0):
+            if res[rect]:
+                rep.disagree(f'cnt read (group names; groups read from the mesh text by the model, rect = {rect}): ' + str(res[rect]),
+                             None if got is None else got.get(res[rect]), None)
+        return
+    tally = ctx.extra.setdefault('ngroup_cfg_mismatches', {'1': 0, '0': 0})
+    for rect in (1, 0):
+        tally[str(rect)] += bool(res[rect])
+    ctx.count('ngroup-cfg:ragged block: reader ' + ('raises' if got is None else 'reads it')
+              + '; reproduced by rect = ' + '/'.join(str(r) for r in (1, 0) if not res[r]))
+    if res[1] and res[0]:
+        rep.disagree('cnt read (group names, ragged !NGROUP block): no NgCfg reproduces the reader: ' + str(res), None, None)
 
 
 # ------------------------------------------------------------------ run
@@ -881,6 +1113,8 @@ def evaluate(ctx, rep, inp, plan=None):
     res = {'final': fin, 'outside': o['outside'], 'cnt': o['cnt']}
     if not edits:       # nothing happened between construction and write: the state is what the caller passed in
         for k in TABLES + SCALARS:
+            if (case.get('array') or {}).get(k) in LOSSY_ARRAY_STYLES:
+                continue
             if not exact_presc_equal(presc_of_case(case, k), presc_of_case(fin, k)):
                 rep.disagree('the constructed object does not hold the table it was given: ' + k,
                              presc_of_case(fin, k)[:10], presc_of_case(case, k)[:10])
@@ -923,27 +1157,43 @@ def evaluate(ctx, rep, inp, plan=None):
     want_groups = plan['groups'] if plan is not None else 'cnt_by_name' in inp
     if want_groups and (n_presc > 0 or plan is None):
         if plan is not None:
-            msh2, by_name, explicit, allg, n_rows = group_texts(rnd, case, msh, cnt)
+            msh2, by_name, explicit, allg, n_rows, layout = group_texts(rnd, case, msh, cnt, want_ragged=rnd.random() < .2)
             ctx.count('group-rows', n_rows)
-            inp.update(msh=msh2, cnt_by_name=by_name, cnt_explicit=explicit, groups=allg)
+            for c in layout['classes']:
+                ctx.count('group-layout:' + c)
+            ctx.count('group-layout:case ' + ('with a RAGGED block' if layout['ragged'] else 'with a line of several ids'
+                                              if layout['max_ids_per_line'] > 1 else 'one id per line only'))
+            ctx.count('group-layout:blocks per case', layout['n_blocks'])
+            if len({tuple(sorted(set(v))) for v in allg.values()}) < len(allg):
+                ctx.count('group-relations:two names, the same node set')
+            if any(len(set(v)) < len(v) for v in allg.values()):
+                ctx.count('group-relations:a member listed twice')
+            if any(x != y and y.startswith(x) for x in allg for y in allg):
+                ctx.count('group-relations:a name that is a prefix of another')
+            inp.update(msh=msh2, cnt_by_name=by_name, cnt_explicit=explicit, groups=allg, group_layout=layout)
         msh2, by_name, explicit, allg = inp['msh'], inp['cnt_by_name'], inp['cnt_explicit'], inp['groups']
+        ragged = bool((inp.get('group_layout') or {}).get('ragged'))
+        a = None
         try:
             a, by_name_fd = real_read(ctx, msh2, by_name, tag='g1', want_fd=True)
             b = real_read(ctx, msh2, explicit, tag='g2')
         except Exception as e:  # noqa
-            rep.fail('group:read-raises:' + type(e).__name__, f'reading a control file that addresses node groups raised {e!r}', repr(e))
-            return res
-        for k in TABLES + SCALARS:
-            pa = presc(a[k]) if a[k] is not None else []
-            pb = presc(b[k]) if b[k] is not None else []
-            if sorted(set(pa)) != sorted(set(pb)):
-                rep.fail('group:' + k, f'{k}: group-name file denotes {pa[:6]}, explicit listing denotes {pb[:6]}',
-                         {'by_name': pa[:20], 'explicit': pb[:20]})
+            # a block whose lines hold different numbers of ids (k per line, shorter last line) is a legitimate definition of a
+            # node group: inside the quantifier; its own signature because the unchanged tree raises there (findings/C03-ragged-ngroup.md)
+            sig = 'group-layout:ragged-block:read-raises:' if ragged else 'group:read-raises:'
+            rep.fail(sig + type(e).__name__, 'reading a control file that addresses node groups '
+                     + ('(one !NGROUP block has lines of different lengths) ' if ragged else '') + f'raised {e!r}', repr(e))
+        if a is not None:
+            for k in TABLES + SCALARS:
+                pa = presc(a[k]) if a[k] is not None else []
+                pb = presc(b[k]) if b[k] is not None else []
+                if sorted(set(pa)) != sorted(set(pb)):
+                    rep.fail('group:' + k, f'{k}: group-name file denotes {pa[:6]}, explicit listing denotes {pb[:6]}',
+                             {'by_name': pa[:20], 'explicit': pb[:20]})
         if ctx.driver is not None:
-            mr = model_read(ctx, allg, by_name)
-            k = 'model-raises' if mr is None else diff_read(a, mr)
-            if k:
-                rep.disagree('cnt read (group names): ' + k, a.get(k), None if mr is None else mr.get(k))
+            ngroup_tie(ctx, rep, a, msh2, by_name, ragged)
+        if a is None:
+            return res
     # --- read -> modify -> write -> read
     if extra == 'rmw':
         if plan is not None:
@@ -992,6 +1242,10 @@ def eval_case(ctx, case, groups=True, n_edits=0, extra=None):
     ctx.count('ids:' + str(case['mesh']['id_style']) + '/' + case['mesh']['order'])
     ctx.count('history:' + ('as constructed' if not edits else 'modified before write'))
     ctx.count('settings:' + ('defaults' if not case.get('settings') else '+'.join(sorted(case['settings']))))
+    for k, st in (case.get('array') or {}).items():
+        ctx.count('caller-array:' + st)
+    if not case.get('array'):
+        ctx.count('caller-array:float64 C-ordered only')
     if inp.get('extra'):
         ctx.count('extra:' + inp['extra'] + (':' + inp['rmw']['source'] if 'rmw' in inp else '')
                   + (':modified between the writes' if inp.get('twice_edits') else ''))
@@ -1047,6 +1301,55 @@ def outside_streams(ctx, n):
             ctx.count('outside:cflux+pure_cflux:' + ('round-trips' if ok else 'merged into one kind'))
         except Exception as e:  # noqa
             ctx.count(f'outside:cflux+pure_cflux:raises:{type(e).__name__}')
+
+
+NG_OUTSIDE_VARIANTS = ['trailing-comma', 'lower-case-keyword', 'spaces-around-equals']
+
+
+def outside_group_formats(ctx, n):
+    """labelled stream `outside:ngroup-format:*` (never judged): spellings of an !NGROUP block that FrontISTR itself may accept
+    but that the property text does not speak about and the unchanged reader does not support - a delimiter at the end of a data
+    line ('1, 2, 3,'), the keyword in lower case ('!ngroup, ngrp=G'), blanks around '=' ('NGRP = G').  What the reader does with
+    them is recorded in the distribution."""
+    rnd = ctx.rng
+    for j in range(n):
+        variant = NG_OUTSIDE_VARIANTS[j % len(NG_OUTSIDE_VARIANTS)]
+        case = gen_case(rnd, decimal=True)
+        ids = [i for i, _ in case['mesh']['nodes']]
+        k = rnd.choice(['boundary', 'cload'])
+        case['tables'] = {k: gen_table(rnd, ids, DIG[k], True)}
+        case['scalars'] = {}
+        case['construct'] = {}
+        try:
+            msh, cnt = real_write(ctx, case, tag='o')
+            mem = rnd.sample(ids, rnd.randint(2, min(6, len(ids)))) if len(ids) > 1 else list(ids)
+            hdr, line = '!NGROUP, NGRP=GRP', ', '.join(str(i) for i in mem)
+            if variant == 'trailing-comma':
+                line += ','
+            elif variant == 'lower-case-keyword':
+                hdr = '!ngroup, ngrp=GRP'
+            else:
+                hdr = '!NGROUP, NGRP = GRP'
+            msh2 = msh[:-1] + [hdr, line] + msh[-1:]
+            by_name, explicit, done = [], [], False
+            for ln in cnt:
+                f = ln.split(',')
+                if not done and (not ln.startswith('!')) and f[0].strip().isdigit() and len(f) >= 3 and 'E' in ln:
+                    by_name.append('GRP,' + ','.join(f[1:]))
+                    explicit += [f'{i},' + ','.join(f[1:]) for i in mem]
+                    done = True
+                else:
+                    by_name.append(ln)
+                    explicit.append(ln)
+            b = real_read(ctx, msh, explicit, tag='o2')
+            try:
+                a = real_read(ctx, msh2, by_name, tag='o3')
+                same = sorted(set(presc(a[k] or []))) == sorted(set(presc(b[k] or [])))
+                ctx.count(f'outside:ngroup-format:{variant}:' + ('read as the explicit listing' if same else 'read DIFFERENTLY from the explicit listing'))
+            except Exception as e:  # noqa
+                ctx.count(f'outside:ngroup-format:{variant}:raises:{type(e).__name__}')
+        except Exception as e:  # noqa
+            ctx.count(f'outside:ngroup-format:{variant}:harness:{type(e).__name__}')
 
 
 # ------------------------------------------------------------------ size boundaries (round 4, class G; seeded C03-7)
@@ -1312,6 +1615,7 @@ def run(ctx):
         extra = rnd.choice(['twice', 'fresh', 'fresh', 'rmw', 'rmw'] + [None] * 5)
         eval_case(ctx, case, n_edits=n_edits, extra=extra)
     outside_streams(ctx, ctx.n(8, 40))
+    outside_group_formats(ctx, ctx.n(6, 30))
     big_stream(ctx)
 
 
